@@ -7,6 +7,7 @@ import (
 	"os"
 	"runtime"
 	"sort"
+	"strconv"
 	"strings"
 	"sync"
 	"sync/atomic"
@@ -70,6 +71,8 @@ type Exec struct {
 	// LeakStacks holds the stacks of bubble goroutines (other than the root) that were still alive at the very end.
 	LeakStacks string
 
+	// Armed lists the statement-level point occurrences at which a goroutine is preempted in this execution.
+	Armed      []string
 	Points     []Point
 	Choices    []string
 	Diverged   bool
@@ -211,6 +214,9 @@ type Scenario struct {
 	Check func(x *Exec) []Violation
 	// Outcome classifies the finished execution (vacuity indicator). Optional.
 	Outcome func(x *Exec) string
+	// PointFiles switches preemptive mode on: the build instruments the files listed in the check's part with
+	// statement-level points, and the explorer additionally preempts one goroutine at every point occurrence.
+	PointFiles bool
 }
 
 // Explorer is a stateless depth-first explorer by replay with an iterated deviation bound (CHESS shape): the default
@@ -224,6 +230,10 @@ type Explorer struct {
 	Deadline time.Time
 	// Confirm re-executes a violating schedule this many times before reporting it.
 	Confirm int
+	// PreemptBound is the deviation budget explored around each single preemption (default MaxBound-1).
+	PreemptBound *int
+	// MaxPointOccurrence, when > 0, only preempts at the first so many occurrences of each site.
+	MaxPointOccurrence int
 
 	execs       int64
 	stopped     bool
@@ -232,6 +242,7 @@ type Explorer struct {
 	seenVio     map[string]int
 	sampled     int
 	lastOutcome string
+	armed       []string
 }
 
 var watchdogArmed atomic.Int64 // unix nanos of the start of the running execution (0 = none)
@@ -321,6 +332,12 @@ func (e *Explorer) RunOnce(prefix []string) *Exec {
 		synctest.Test(e.T, func(t *testing.T) {
 			x.T = t
 			x.W = NewWorld()
+			if e.Scn.PointFiles {
+				x.W.EnablePoints(e.armed)
+				x.Armed = e.armed
+				curWorld.Store(x.W)
+				defer curWorld.Store(nil)
+			}
 			ctx, cancel := context.WithCancel(context.Background())
 			x.Ctx, x.cancel = ctx, cancel
 			e.Scn.Setup(x)
@@ -417,6 +434,9 @@ func (e *Explorer) Explore() int {
 		completed = b
 	}
 	e.Rep.Bound(e.Scn.Name+".deviations_completed", completed)
+	if e.Scn.PointFiles && !e.stopped {
+		e.preemptionSweep()
+	}
 	return completed
 }
 
@@ -515,7 +535,7 @@ func (e *Explorer) account(x *Exec) {
 			e.Rep.Extra("unreproduced_"+v.Key, v.Text)
 			continue
 		}
-		v.Replay = map[string]any{"scenario": e.Scn.Name, "params": e.Scn.Params, "schedule": x.Choices, "reproduced": v.Reproduced}
+		v.Replay = map[string]any{"scenario": e.Scn.Name, "params": e.Scn.Params, "schedule": x.Choices, "reproduced": v.Reproduced, "preempt_at": x.Armed}
 		e.Rep.AddViolation(v)
 	}
 }
@@ -541,8 +561,9 @@ func (e *Explorer) replayFile(path string) {
 	}
 	var doc struct {
 		Replay struct {
-			Scenario string   `json:"scenario"`
-			Schedule []string `json:"schedule"`
+			Scenario  string   `json:"scenario"`
+			Schedule  []string `json:"schedule"`
+			PreemptAt []string `json:"preempt_at"`
 		} `json:"replay"`
 	}
 	if err := json.Unmarshal(b, &doc); err != nil {
@@ -551,6 +572,7 @@ func (e *Explorer) replayFile(path string) {
 	if doc.Replay.Scenario != e.Scn.Name {
 		return
 	}
+	e.armed = doc.Replay.PreemptAt
 	x := e.RunOnce(doc.Replay.Schedule)
 	e.Rep.Eval()
 	e.Rep.Trace()
@@ -565,4 +587,54 @@ func (e *Explorer) replayFile(path string) {
 		v.Replay = map[string]any{"scenario": e.Scn.Name, "params": e.Scn.Params, "schedule": x.Choices}
 		e.Rep.AddViolation(v)
 	}
+}
+
+
+// preemptionSweep: for every statement-level point occurrence hit by the default execution, one goroutine is preempted
+// exactly there (1 preemption) and the environment schedule is explored around it with the remaining deviation budget.
+func (e *Explorer) preemptionSweep() {
+	e.armed = nil
+	root := e.RunOnce(nil)
+	cands := root.W.PointsSeen()
+	seen := map[string]bool{}
+	done := 0
+	budget := e.MaxBound - 1
+	if budget < 0 {
+		budget = 0
+	}
+	if e.PreemptBound != nil {
+		budget = *e.PreemptBound
+	}
+	for ci, c := range cands {
+		if seen[c] {
+			continue
+		}
+		seen[c] = true
+		if k := strings.LastIndex(c, "#"); k >= 0 && e.MaxPointOccurrence > 0 {
+			if n, err := strconv.Atoi(c[k+1:]); err == nil && n >= e.MaxPointOccurrence {
+				continue
+			}
+		}
+		if ci%e.n != e.shard {
+			continue
+		}
+		e.armed = []string{c}
+		for b := 0; b <= budget; b++ {
+			e.level1 = 0
+			e.stopped = false
+			saveShard, saveN := e.shard, e.n
+			e.shard, e.n = 0, 1 // the sweep is already sharded by candidate
+			e.dfs(nil, b)
+			e.shard, e.n = saveShard, saveN
+			if e.stopped {
+				e.Rep.Cap(fmt.Sprintf("%s: wall-clock budget reached in the preemption sweep after %d of %d point occurrences", e.Scn.Name, done, len(cands)))
+				e.armed = nil
+				return
+			}
+		}
+		done++
+	}
+	e.armed = nil
+	e.Rep.Bound(e.Scn.Name+".preemption_points_swept", len(seen))
+	e.Rep.Bound(e.Scn.Name+".preemption_bound", 1)
 }
